@@ -108,10 +108,39 @@ def histories(rng, quick):
     return [c for c in cases if all(o.get('n', 0) <= 38 for o in c['hist'] + [c['op']])]
 
 
+FS_CFG = '''SPECIFICATION Spec
+CONSTANTS
+  Protocol = "%s"
+  MaxOps = %d
+  Ids = {"m1", "m2"}
+INVARIANT %s
+CHECK_DEADLOCK FALSE
+'''
+
+
+def design_model(ctx, quick):
+    """M: FileStore.tla.  The as-built protocol: every class of crash image (operation, crash point, mode) that
+    breaks a sentence of C17 is listed; the repaired protocol: the sentences hold (they are satisfiable in
+    this crash model).  Returns (classes, states, transitions)."""
+    n = 4 if quick else 5
+    a = ctx.tlc('FileStore.tla', 'a.cfg', workers=8, timeout=3000, files={'a.cfg': FS_CFG % ('asbuilt', n, 'Report')})
+    ctx.tlc_ok(a, 'FileStore M (as built)')
+    classes = set()
+    for m in common.printed(a['out'], 'VIOL'):
+        for c in m[4]:
+            classes.add((m[1], m[2], m[3], c))
+    if not classes:
+        raise common.Infra('FileStore.tla (as built) reports no violating crash image: the model lost the known findings')
+    r = ctx.tlc('FileStore.tla', 'r.cfg', workers=8, timeout=3000, files={'r.cfg': FS_CFG % ('repaired', n, 'C17_Holds')})
+    ctx.tlc_ok(r, 'FileStore M (repaired protocol)')
+    return classes, a['distinct'] + r['distinct'], a['generated'] + r['generated']
+
+
 def run(ctx):
     quick = ctx.tier == 'quick'
     rng = random.Random(ctx.seed)
     ctx.build()
+    model_classes, mstates, mtrans = design_model(ctx, quick)
     cases = histories(rng, quick)
     cp = os.path.join(ctx.scratch, 'cases.ndjson')
     common.ndjson_write(cp, cases)
@@ -138,6 +167,33 @@ def run(ctx):
                 row['obs']['reopen'], row['obs']['ns'], row['obs']['nt'], [(x['n'], x['ok'], x['ids']) for x in row['obs']['per']][:6],
                 (row['obs']['whole']['ok'], row['obs']['whole']['ids'][:6]), row['obs']['further'], row['obs'].get('reopenErr', '')),
                 {'case': {'id': row['id'], 'hist': row['hist'], 'op': row['op'], 'maxn': len(row['obs']['per'])}, 'image': {k: row[k] for k in ('mode', 'point', 'cut', 'cutlen', 'file')}})
+    # binding of the design model: (1) every operation passes exactly the crash points the model gives it
+    seqs = {}
+    for r_ in rows:
+        if r_['mode'] == 'process' and r_['cutlen'] == 0:
+            seqs.setdefault(r_['id'], {'k': r_['op']['k'], 'points': []})['points'].append(r_['point'])
+    srows_ = [{'k': v['k'], 'points': [p_ for p_ in v['points'] if p_ != 'end'], 'id': k} for k, v in seqs.items()]
+    mod_ = '---- MODULE FileStoreTraceX ----\nEXTENDS FileStoreTrace\n====\n'
+    cfg_ = 'SPECIFICATION TraceSpec\nCONSTANTS\n Protocol = "asbuilt"\n MaxOps = 1\n Ids = {"m1"}\nPOSTCONDITION AllConsumed\nCHECK_DEADLOCK FALSE\n'
+    v_ = ctx.tlc('FileStoreTraceX.tla', 'fst.cfg', workers=1, timeout=1200,
+                 files={'trace.ndjson': '\n'.join(json.dumps(x) for x in srows_) + '\n', 'fst.cfg': cfg_, 'FileStoreTraceX.tla': mod_})
+    if v_['rc'] != 0 or 'Model checking completed. No error has been found.' not in v_['out']:
+        raise common.Infra('FileStoreTrace did not run to completion:\n' + v_['out'][-2500:])
+    for m in common.printed(v_['out'], 'MISMATCH'):
+        row = srows_[int(m[1]) - 1]
+        ctx.diverge('the real %s passes the crash points %s, the design model (FileStore.tla) has %s' % (row['k'], row['points'], list(m[3])))
+    # (2) every class of violating image found on the real store is one the design model predicts
+    real_classes = set()
+    for ch, m in mism:
+        row = ch[int(m[1]) - 1]
+        for c in m[2]:
+            if c != 'reopens':
+                real_classes.add((row['op']['k'], row['point'], row['mode'], c))
+    unpredicted = sorted(real_classes - model_classes)
+    for u in unpredicted:
+        ctx.diverge('crash images of class %s violate C17 on the real store, but not in the design model of the as-built protocol' % (u,))
+    ctx.notes.append('design model (as built): %d violating image classes; real store: %d, of which %d are predicted by the model; predicted but not produced by this enumeration: %d' % (
+        len(model_classes), len(real_classes), len(real_classes & model_classes), len(model_classes - real_classes)))
     # system-call audit of syncs
     arows = audit(ctx, cp)
     for ch, m in validate(ctx, arows, kind='Audit'):
@@ -156,6 +212,8 @@ def run(ctx):
         ctx.report({'family': 'crash', 'store': 'sql', 'clause': 'atomic', 'fail': row['fail']}, 'SQL save-and-increment not atomic: %s' % json.dumps(row), {'sql': row})
     negative_control(ctx, rows)
     ctx.cov.update({
+        'states': mstates, 'transitions': mtrans, 'model_violation_classes': len(model_classes), 'real_violation_classes': len(real_classes),
+        'operations_bound_to_model_steps': len(srows_),
         'evaluations': len(rows) + len(srows),
         'distinct_nontrivial': len(set((json.dumps(r_['hist']), json.dumps(r_['op']), r_['mode'], r_['point'], r_['cut'], r_['file']) for r_ in rows)),
         'rule': 'one case = one crash image (history, interrupted operation, crash point, crash mode, cut) reopened by the real store; SQL: one injected statement failure; distinct images counted',
